@@ -61,6 +61,10 @@ __all__ = ["ensure_running", "register", "unregister"]
 
 _HAVE_SIGMASK = hasattr(signal, "pthread_sigmask")
 _IGNORED_SIGNALS = (signal.SIGINT, signal.SIGTERM)
+if hasattr(signal, "SIGHUP"):
+    # sent to the whole process group when the terminal or the ssh session of
+    # the clients goes away: the tracker must outlive its clients to clean up.
+    _IGNORED_SIGNALS += (signal.SIGHUP,)
 
 _CLEANUP_FUNCS = {"folder": shutil.rmtree, "file": os.unlink}
 
@@ -188,6 +192,8 @@ def main(fd, verbose=0):
 
     signal.signal(signal.SIGINT, signal.SIG_IGN)
     signal.signal(signal.SIGTERM, signal.SIG_IGN)
+    if hasattr(signal, "SIGHUP"):
+        signal.signal(signal.SIGHUP, signal.SIG_IGN)
 
     if _HAVE_SIGMASK:
         signal.pthread_sigmask(signal.SIG_UNBLOCK, _IGNORED_SIGNALS)
